@@ -215,7 +215,7 @@ def _integral(ring):
 
 
 # /repo commits that repaired the defect (frag/C04.fix-<n>.diff); None = repair proposed, not applied yet (finding stays `known`)
-FIX = {1: "964499d", 2: "6fd4ec8", 3: "0c8663a", 4: "6534350", 5: "e1cb767", 6: "3b7f5ec", 7: "d8dba27", 8: "5a5d83b"}
+FIX = {1: "964499d", 2: "6fd4ec8", 3: "0c8663a", 4: "6534350", 5: "e1cb767", 6: "3b7f5ec", 7: "d8dba27", 8: "5a5d83b", 9: None, 10: None, 11: None, 12: None}
 
 
 def code_site(ring, src):
@@ -251,7 +251,7 @@ def code_site(ring, src):
     else:
         fam = RING_CXX[ring]
         explicit = {"bd": ("f", "d", "i64", "u64", "I"), "bf": ("f", "d", "i32", "u32", "i64", "u64", "I"), "bi32": ("f", "d", "i64", "u64", "I"),
-                    "bi64": ("f", "d", "I"), "ef": ("d", "i32", "u32", "i64", "u64"), "ed": (), "mont32": ("d", "i64", "u64", "I"), "mI": (),
+                    "bi64": ("f", "d", "I"), "ef": ("d", "f", "i32", "u32", "i64", "u64", "I"), "ed": ("d", "f", "i64", "u64", "I"), "mont32": ("d", "i64", "u64", "I"), "mI": (),
                     "mru7": ("I",), "mru67": ("I",), "gfq32": ("d", "f", "i32", "i64", "I", "u64", "u32"), "gfq64": ("d", "f", "i32", "i64", "I", "u64", "u32"),
                     "log16": ("i64", "i32", "u64", "u32", "u16", "i16", "d", "f", "I")}[ring]
         if src in explicit:
@@ -291,9 +291,9 @@ def defect_rules():
          "long long / unsigned long long select the generic template: Caster<float>(a) rounded values beyond 2^24 before reducing", 6),
         ("unsigned-long-long>=2^63", lambda r: r in ("mont32", "bi32", "bd", "bf"), ("ull",), ge63,
          "the generic template converts the source to int64_t: unsigned long long values >= 2^63 wrap to negative numbers "
-         "(uint64_t has its own overload, unsigned long long is a distinct type)", None),
+         "(uint64_t has its own overload, unsigned long long is a distinct type)", 9),
         ("int32_t-min-into-64-bit-unsigned-element", lambda r: r in ("mu64", "mu64w", "mru7", "mru67"), ("i32",), tmin,
-         "generic init: -y overflows in int for INT32_MIN and the sign-extended value 2^64-2^31 is reduced instead of 2^31", None),
+         "generic init: -y overflows in int for INT32_MIN and the sign-extended value 2^64-2^31 is reduced instead of 2^31", 11),
         ("type-min", lambda r: r in ("gfq32", "gfq64"), ("i32", "i64"), tmin,
          "tr = -tr overflows; the table index _q - tr is far outside _pol2log (out-of-bounds read; crashes for int32_t)", 8),
         ("negative-Integer", lambda r: r in ("bd", "bf", "bi32", "bi64"), ("I",), neg,
@@ -309,7 +309,7 @@ def defect_rules():
         ("unsigned-source-of-storage-width>=2^(N-1)", lambda r: r == "bi32", ("u32",), lambda r, s, m, x: x >= 2**31,
          "uint32_t went through the generic Caster<Element>(a): values >= 2^31 wrap to negative numbers", 6),
         ("unsigned-source-of-storage-width>=2^(N-1)", lambda r: r == "bi64", ("u64", "ull"), ge63,
-         "uint64_t goes through the generic Caster<Element>(a): values >= 2^63 wrap to negative numbers", None),
+         "uint64_t goes through the generic Caster<Element>(a): values >= 2^63 wrap to negative numbers", 10),
         ("modulus-not-representable-in-source", lambda r: r in ("mi32w", "mu32w", "mi64w", "mu64w"), ("f", "d"),
          lambda r, s, m, x: _sbits(r) == (32 if s == "f" else 64) and not float_representable(m, 24 if s == "f" else 53),
          "fmod(y, Source(_p)): the modulus is rounded to the floating source type, every residue is taken modulo the wrong number", None),
@@ -317,22 +317,28 @@ def defect_rules():
          "generic init casts the float to int64_t before reducing: undefined for |y| >= 2^63", None),
         ("float-beyond-element-range", lambda r: r in ("mu64", "mu64w"), ("f",), lambda r, s, m, x: abs(x) >= 2**64,
          "generic init casts |y| to uint64_t before reducing: undefined for |y| >= 2^64", None),
-        ("float-beyond-element-range", lambda r: r in ("mru7", "mru67", "gfq64"), ("f", "d"), lambda r, s, m, x: abs(x) >= 2**64,
+        ("float-beyond-element-range", lambda r: r in ("mru7", "mru67"), ("f", "d"), lambda r, s, m, x: abs(x) >= 2**64,
          "the floating value is cast to a 64-bit word before reducing: undefined for |y| >= 2^64", None),
+        ("float-equal-2^64", lambda r: r == "gfq64", ("f", "d"), lambda r, s, m, x: abs(x) == 2**64,
+         "`tr > Signed_Trait<UTT>::max()` compares with 2^64-1 rounded to 2^64: |y| = 2^64 takes the (UTT) cast (undefined)", 10),
         ("float-beyond-element-range", lambda r: r == "log16", ("f", "d"), lambda r, s, m, x: abs(x) >= 2**63,
-         "init(double) is init((int64_t)i): undefined for |i| >= 2^63", None),
+         "init(double) is init((int64_t)i): undefined for |i| >= 2^63", 10),
         ("float-beyond-32-bits", lambda r: r == "mont32", ("f",), lambda r, s, m, x: 2**32 <= abs(x) < 2**63,
          "the generic template cast |a| to uint32_t before reducing: undefined for |a| >= 2^32", 6),
         ("float-beyond-element-range", lambda r: r == "mont32", ("f",), lambda r, s, m, x: abs(x) >= 2**63,
-         "the generic template converts the float to int64_t before reducing: undefined for |a| >= 2^63", None),
+         "the generic template converts the float to int64_t before reducing: undefined for |a| >= 2^63", 9),
         ("wider-than-element", lambda r: r in ("mru7", "mru67"), ("I",), lambda r, s, m, x: abs(x) >= 2**(128 if r == "mru7" else 64),
          "Caster<ruint<K>>(|a|) kept the low 2^K bits of the Integer before reducing", 7),
-        ("beyond-exact-floating-range", lambda r: r == "ed", ("I", "i64", "u64", "ll", "ull", "f", "d"), lambda r, s, m, x: abs(x) >= 2**53,
+        ("dead-specialisation-beyond-exact-floating-range", lambda r: r == "ed", ("I", "i64", "u64", "f", "d"), lambda r, s, m, x: abs(x) >= 2**53,
          "generic init = Caster<double>(a) (rounds) + one-step FMA reduce (valid for |a| < 2^53 only); the exact int64_t/uint64_t/Integer "
-         "specialisations are declared for `const T` and never selected", None),
-        ("beyond-exact-floating-range", lambda r: r == "ef", ("I", "f", "ll", "ull"), lambda r, s, m, x: abs(x) >= 2**24,
+         "specialisations were declared for `const T` and never selected", 12),
+        ("dead-specialisation-beyond-exact-floating-range", lambda r: r == "ef", ("I", "f"), lambda r, s, m, x: abs(x) >= 2**24,
          "generic init = Caster<float>(a) (rounds, inf for wide Integers) + one-step FMA reduce (valid for |a| < 2^24 only); the "
-         "`const Integer&` specialisation is never selected, long long is not int64_t", None),
+         "`const Integer&` specialisation was never selected", 12),
+        ("long-long-beyond-exact-floating-range", lambda r: r == "ed", ("ll", "ull"), lambda r, s, m, x: abs(x) >= 2**53,
+         "long long / unsigned long long are not int64_t / uint64_t: generic init = Caster<double>(a) (rounds) + one-step FMA reduce", None),
+        ("long-long-beyond-exact-floating-range", lambda r: r == "ef", ("ll", "ull"), lambda r, s, m, x: abs(x) >= 2**24,
+         "long long / unsigned long long are not int64_t / uint64_t: generic init = Caster<float>(a) (rounds) + one-step FMA reduce", None),
     ]
 
 
